@@ -278,7 +278,7 @@ def main(argv):
 
     if update_baseline and not violations and not checker_failure and not open_unknown and not undecided and not errors:
         os.makedirs(os.path.join(HERE, "baseline"), exist_ok=True)
-        base = {"obligations": {k + "|" + n: ({"discharged": True, "hint": "mbqi"} if any(b.startswith("z3-mbqi") or b.startswith("cvc5") for b in g["backends"]) else {"discharged": True})
+        base = {"obligations": {k + "|" + n: ({"discharged": True, "hint": "reparse"} if any(b.startswith("z3-reparse") for b in g["backends"]) else {"discharged": True, "hint": "mbqi"} if any(b.startswith("z3-mbqi") or b.startswith("cvc5") for b in g["backends"]) else {"discharged": True})
                                 for (k, n), g in byname.items()},
                 "hashes": {f["function"]: f["src_sha256_16"] for f in funcs}}
         json.dump(base, open(base_path, "w"), indent=0, sort_keys=True)
